@@ -5,6 +5,7 @@ go 1.25.0
 require (
 	github.com/gdamore/tcell/v2 v2.13.9
 	github.com/pancsta/asyncmachine-go v0.0.0
+	github.com/pancsta/cview v1.5.23
 )
 
 require (
@@ -82,7 +83,6 @@ require (
 	github.com/oklog/ulid/v2 v2.1.0 // indirect
 	github.com/olekukonko/tablewriter v0.0.5 // indirect
 	github.com/orsinium-labs/enum v1.4.0 // indirect
-	github.com/pancsta/cview v1.5.23 // indirect
 	github.com/parquet-go/parquet-go v0.24.0 // indirect
 	github.com/patrickmn/go-cache v2.1.0+incompatible // indirect
 	github.com/pierrec/lz4/v4 v4.1.22 // indirect
